@@ -12,7 +12,10 @@ and `streams/builder/{mod,multi}.rs` (`Model/Subscribe.lean`). What a user of th
 * `DynamicStreams::init` groups every batch into one connection per distinct `(exchange, kind)`; every
   subscription lands in exactly one group; no validated subscription ends in `Unsupported`,
   `UnsupportedSubKind`, `SubscriptionsEmpty` or an `unwrap` panic; every connection has a channel and
-  every channel a connection; batches never share a connection.
+  every channel a connection; batches never share a connection;
+* `StreamBuilder::init` / `MultiStreamBuilder::init` before the network are the first poll of `try_join_all`:
+  with at most 30 futures the first one IN ORDER THAT FAILS WHEN FIRST POLLED decides, also behind futures that
+  went to the network (corrected after the sub-check review; run on the real `init`).
 
 `sort_unstable_by_key` is a parameter `usort` constrained only by what its documentation promises
 (`UnstableSort`: an ordered permutation); statements that need more say `stableSort` explicitly.
@@ -158,6 +161,63 @@ theorem subkind_table :
   refine ⟨rfl, SubKind.mem_all, SubKind.ofNat?_toNat, fun _ _ => SubKind.toNat_inj, ?_, ?_⟩
   · intro a b h; cases a <;> cases b <;> first | rfl | (revert h; decide)
   · intro a b h; cases a <;> cases b <;> first | rfl | (revert h; decide)
+
+/-! ## The derived order: sort keys -/
+
+/-- The sort-key convention is faithful: for a lawful instrument key (injective, no key a proper prefix of
+another) the lexicographic order of `Subscr.sortKey` is the order of the TUPLE (exchange, instrument, kind) —
+what `#[derive(Ord)]` of `Subscription` compares. -/
+theorem sort_key_is_tuple_order {ι : Type} (ops : InstOps ι) (hl : ops.Lawful) (s t : Subscr ι) :
+    Subscr.sortKey ops s ≤ Subscr.sortKey ops t ↔
+      s.exchange.toNat < t.exchange.toNat ∨ (s.exchange = t.exchange ∧
+        (ops.sortKey s.instrument < ops.sortKey t.instrument ∨
+          (s.instrument = t.instrument ∧ s.kind.toNat ≤ t.kind.toNat))) := by
+  obtain ⟨e1, i1, k1⟩ := s
+  obtain ⟨e2, i2, k2⟩ := t
+  simp only [Subscr.sortKey, List.cons_le_cons_iff]
+  rw [append_le_append_iff_of_sep _ _ _ _ (hl.sep i1 i2) (hl.sep i2 i1)]
+  have hk : [k1.toNat] ≤ [k2.toNat] ↔ k1.toNat ≤ k2.toNat := by
+    simp only [List.cons_le_cons_iff, List.nil_le, and_true]; omega
+  rw [hk]
+  constructor
+  · rintro (h | ⟨he, h⟩)
+    · exact .inl h
+    · refine .inr ⟨BarterModel.Names.toNat_inj he, ?_⟩
+      rcases h with h | ⟨hi, h⟩
+      · exact .inl h
+      · exact .inr ⟨hl.inj hi, h⟩
+  · rintro (h | ⟨he, h⟩)
+    · exact .inl h
+    · refine .inr ⟨by rw [he], ?_⟩
+      rcases h with h | ⟨hi, h⟩
+      · exact .inl h
+      · exact .inr ⟨by rw [hi], h⟩
+
+/-- The asset names the harness builds (`a000`, `a001`, …) order as their NUMBERS below 1000 (the generators'
+whole range) … -/
+theorem asset_names_below_1000_order_as_numbers (n m : Nat) (hn : n < 1000) (hm : m < 1000) :
+    strKey (assetName n) ≤ strKey (assetName m) ↔ n ≤ m := by
+  rw [strKey_assetName_small n hn, strKey_assetName_small m hm]
+  simp only [List.cons_le_cons_iff, List.nil_le, and_true, Nat.lt_irrefl, false_or, true_and]
+  omega
+
+/-- … and NOT from 1000 on: the derived `Ord` compares the names as strings, `"a1000" < "a999"`. WITNESS (the
+input of the sub-check review, `vsubs 7,999/1/s,0 7,1000/1/s,0` on the real `validate_subscriptions`): the
+accepted batch lists asset 1000 before asset 999. (Until the review the model compared the numbers.) -/
+theorem asset_name_1000_sorts_before_999 :
+    strKey (assetName 1000) < strKey (assetName 999) ∧
+      validateSubscriptions instOps
+          [⟨.binanceSpot, ⟨999, 1, .spot⟩, .publicTrades⟩, ⟨.binanceSpot, ⟨1000, 1, .spot⟩, .publicTrades⟩] =
+        .ok [⟨.binanceSpot, ⟨1000, 1, .spot⟩, .publicTrades⟩, ⟨.binanceSpot, ⟨999, 1, .spot⟩, .publicTrades⟩] := by
+  refine ⟨by decide +kernel, ?_⟩
+  have hv : collectM (Subscr.validate instOps)
+      [⟨.binanceSpot, ⟨999, 1, .spot⟩, .publicTrades⟩, ⟨.binanceSpot, ⟨1000, 1, .spot⟩, .publicTrades⟩] =
+      .ok [⟨.binanceSpot, ⟨999, 1, .spot⟩, .publicTrades⟩, ⟨.binanceSpot, ⟨1000, 1, .spot⟩, .publicTrades⟩] := by
+    decide +kernel
+  have hle : leKey (Subscr.sortKey instOps) (⟨.binanceSpot, ⟨999, 1, .spot⟩, .publicTrades⟩ : Subscr Inst)
+      ⟨.binanceSpot, ⟨1000, 1, .spot⟩, .publicTrades⟩ = false := by decide +kernel
+  simp [validateSubscriptions, hv, sortDedup, BarterModel.Index.dedup, List.mergeSort,
+    List.MergeSort.Internal.splitInTwo, hle]
 
 /-! ## Validation of batches -/
 
@@ -540,6 +600,30 @@ theorem selects_refine_spec (c : Chans) (hc : c.Nodup) (ops : List SelOp) (f : C
   rw [(run_get c hc ops f).1, specPresent_eq, List.mem_filter]
   simp
 
+/-- The hypothesis `c.Nodup` is discharged for every channel table `DynamicStreams::init` produces (the tables
+are hash maps: `Channels::try_from` inserts an exchange once per family) … -/
+theorem init_channel_table_nodup {ι : Type} [DecidableEq ι] (ops : InstOps ι)
+    {usort : List (Subscr ι) → List (Subscr ι)} (hu : UnstableSort usort) (batches : List (List (Subscr ι)))
+    (r : InitOk ι) (h : init ops usort batches = .ok r) : r.chans.Nodup :=
+  fun f => (init_channels ops hu batches r h f default).2
+
+/-- … so for the streams of a successful `init` the refinement holds without any hypothesis on the table. -/
+theorem selects_refine_spec_after_init {ι : Type} [DecidableEq ι] (ops : InstOps ι)
+    {usort : List (Subscr ι) → List (Subscr ι)} (hu : UnstableSort usort) (batches : List (List (Subscr ι)))
+    (r : InitOk ι) (h : init ops usort batches = .ok r) (sel : List SelOp) (f : Chan) (e : ExchangeId) :
+    e ∈ (r.chans.run sel).get f ↔ specPresent r.chans sel f e = true :=
+  selects_refine_spec r.chans (init_channel_table_nodup ops hu batches r h) sel f e
+
+/-- WITNESS that `Nodup` is needed by the MODEL's list representation (not by the code, whose maps cannot hold
+a key twice): with `okx` listed twice one `select` leaves a copy behind. The driver builds its tables with
+`eraseDups`. -/
+theorem selects_need_nodup_witness :
+    ¬ (∀ (c : Chans) (ops : List SelOp) (f : Chan) (e : ExchangeId),
+      e ∈ (c.run ops).get f ↔ specPresent c ops f e = true) := by
+  intro h
+  have := h { trades := [.okx, .okx] } [.select .trades .okx] .trades .okx
+  revert this; decide
+
 /-- `select_all_<f>` hands out exactly the streams still present. -/
 theorem select_all_returns_the_present_streams (c : Chans) (hc : c.Nodup) (ops : List SelOp) (f : Chan) :
     ((c.run ops).selectAll f).2 = (c.get f).filter (fun e => specPresent c ops f e) ∧
@@ -577,27 +661,115 @@ theorem subscribe_future_outcome (c : Exch) (insts : List ι) :
   ⟨subscribeOutcome_unsupported_iff ops c insts, subscribeOutcome_empty_iff ops c insts,
     subscribeOutcome_connect_iff ops c insts⟩
 
-/-- `StreamBuilder::init` before the network is decided by the first `subscribe` call alone: no call, no
-error; otherwise the first call's outcome. -/
+/-- What the future of a `subscribe` call does when first polled: never `Ok` at once; `Pending` on the network
+iff the call's outcome is `connect`; otherwise it fails with the call's own outcome, under its own connector. -/
+theorem first_poll_of_call (call : Exch × List ι) :
+    callPoll ops call ≠ none ∧
+      (callPoll ops call = some .network ↔ ∃ l, subscribeOutcome ops call.1 call.2 = .connect l) ∧
+      ∀ c o, callPoll ops call = some (.error (c, o)) ↔
+        call.1 = c ∧ subscribeOutcome ops call.1 call.2 = o ∧ ∀ l, o ≠ .connect l :=
+  ⟨callPoll_ne_none ops call, callPoll_network_iff ops call, callPoll_error_iff ops call⟩
+
+/-- `StreamBuilder::init` before the network (CORRECTED after the sub-check review: the former statement "the
+first `subscribe` call alone decides" is false of `try_join_all` on at most 30 futures, see
+`later_synchronous_failure_decides`): no call, no error; and IF the first call fails before the network
+(unsupported instrument kind, or no subscription) its error is the result — whatever the other calls do, and
+for any number of calls. -/
 theorem builder_init_decided_by_first_call (b : Builder ι) :
     (b.init ops = none ↔ b.futures = []) ∧
-      ∀ c insts rest, b.futures = (c, insts) :: rest →
-        b.init ops = some (match subscribeOutcome ops c insts with
-          | .connect _ => .network
-          | o => .error o) := by
+      ∀ c insts rest, b.futures = (c, insts) :: rest → (∀ l, subscribeOutcome ops c insts ≠ .connect l) →
+        b.init ops = some (.error (c, subscribeOutcome ops c insts)) := by
   constructor
-  · unfold Builder.init
-    cases h : b.futures with
-    | nil => simp
-    | cons call rest =>
-      obtain ⟨c, insts⟩ := call
-      simp only [reduceCtorEq, iff_false]
-      cases subscribeOutcome ops c insts <;> simp
-  · intro c insts rest h
-    unfold Builder.init
-    rw [h]
-    simp only
-    cases subscribeOutcome ops c insts <;> rfl
+  · have key : (∀ x ∈ b.firstPolls ops, x = none) ↔ b.futures = [] := by
+      constructor
+      · intro h
+        cases hf : b.futures with
+        | nil => rfl
+        | cons call rest =>
+          exact absurd (h (callPoll ops call) (by simp [Builder.firstPolls, hf])) (callPoll_ne_none ops call)
+      · intro h; simp [Builder.firstPolls, h]
+    unfold Builder.init tryJoinAll
+    split
+    · rw [joinSmall_none_iff, key]
+    · rw [joinBig_none_iff, key]
+  · intro c insts rest h hfail
+    have hp : callPoll ops (c, insts) = some (.error (c, subscribeOutcome ops c insts)) :=
+      (callPoll_error_iff ops (c, insts) c _).mpr ⟨rfl, rfl, hfail⟩
+    unfold Builder.init tryJoinAll
+    simp only [Builder.firstPolls, h, List.map_cons, hp]
+    split <;> rfl
+
+/-- THE FIRST-PASS CLAUSE (`try_join_all` on at most 30 futures polls every future once, in order, and returns
+the first `Err` of that pass): the result of `init` before the network is the error of the first call, in
+`subscribe` order, that FAILS WHEN FIRST POLLED — an iff — … -/
+theorem builder_init_first_pass_error (b : Builder ι) (hsmall : b.futures.length ≤ 30) (c : Exch)
+    (o : SubscribeOutcome ι) :
+    b.init ops = some (.error (c, o)) ↔
+      ∃ pre insts post, b.futures = pre ++ (c, insts) :: post ∧
+        (∀ p ∈ pre, ∃ l, subscribeOutcome ops p.1 p.2 = .connect l) ∧
+        subscribeOutcome ops c insts = o ∧ ∀ l, o ≠ .connect l := by
+  unfold Builder.init tryJoinAll
+  rw [if_pos (by simpa [Builder.firstPolls, tryJoinSmall] using hsmall), joinSmall_error_iff]
+  constructor
+  · rintro ⟨pre, post, h, hpre⟩
+    obtain ⟨l1, l2', hl, hm1, hm2⟩ := List.map_eq_append_iff.mp h
+    obtain ⟨call, l2, rfl, hcall, _⟩ := List.map_eq_cons_iff.mp hm2
+    obtain ⟨c', insts⟩ := call
+    obtain ⟨hc, ho, hno⟩ := (callPoll_error_iff ops (c', insts) c o).mp hcall
+    simp only at hc ho
+    subst hc
+    refine ⟨l1, insts, l2, hl, ?_, ho, hno⟩
+    intro p hp
+    exact (callPoll_noErr_iff ops p).mp (hpre _ (by rw [← hm1]; exact List.mem_map.mpr ⟨p, hp, rfl⟩))
+  · rintro ⟨pre, insts, post, h, hpre, ho, hno⟩
+    refine ⟨pre.map (callPoll ops), post.map (callPoll ops), ?_, ?_⟩
+    · simp only [Builder.firstPolls, h, List.map_append, List.map_cons,
+        (callPoll_error_iff ops (c, insts) c o).mpr ⟨rfl, ho, hno⟩]
+    · intro x hx
+      obtain ⟨p, hp, rfl⟩ := List.mem_map.mp hx
+      exact (callPoll_noErr_iff ops p).mpr (hpre p hp)
+
+/-- … and only if NO call fails when first polled is the outcome the network's. -/
+theorem builder_init_first_pass_network (b : Builder ι) (hsmall : b.futures.length ≤ 30) :
+    b.init ops = some .network ↔
+      b.futures ≠ [] ∧ ∀ p ∈ b.futures, ∃ l, subscribeOutcome ops p.1 p.2 = .connect l := by
+  unfold Builder.init tryJoinAll
+  rw [if_pos (by simpa [Builder.firstPolls, tryJoinSmall] using hsmall), joinSmall_network_iff]
+  constructor
+  · rintro ⟨hno, x, hx, _⟩
+    refine ⟨?_, fun p hp => (callPoll_noErr_iff ops p).mp (hno _ (List.mem_map.mpr ⟨p, hp, rfl⟩))⟩
+    intro hnil
+    simp [Builder.firstPolls, hnil] at hx
+  · rintro ⟨hne, hall⟩
+    refine ⟨?_, ?_⟩
+    · intro x hx
+      obtain ⟨p, hp, rfl⟩ := List.mem_map.mp hx
+      exact (callPoll_noErr_iff ops p).mpr (hall p hp)
+    · obtain ⟨p, hp⟩ := List.exists_mem_of_ne_nil _ hne
+      exact ⟨_, List.mem_map.mpr ⟨p, hp, rfl⟩, callPoll_ne_none ops p⟩
+
+/-- A LATER synchronous failure decides although earlier calls reached the network: with at most 30 calls, if
+every call before `(c, insts)` goes to the network and `(c, insts)` fails before it, `init` returns that
+call's error (and not "whatever the network does to the first call"). -/
+theorem later_synchronous_failure_decides (b : Builder ι) (pre post : List (Exch × List ι)) (c : Exch)
+    (insts : List ι) (h : b.futures = pre ++ (c, insts) :: post) (hsmall : b.futures.length ≤ 30)
+    (hpre : ∀ p ∈ pre, ∃ l, subscribeOutcome ops p.1 p.2 = .connect l)
+    (hfail : ∀ l, subscribeOutcome ops c insts ≠ .connect l) :
+    b.init ops = some (.error (c, subscribeOutcome ops c insts)) :=
+  (builder_init_first_pass_error ops b hsmall c _).mpr ⟨pre, insts, post, h, hpre, rfl, hfail⟩
+
+/-- From 31 calls on (`try_join_all` hands the futures to `FuturesOrdered`, whose results are consumed in
+index order) the first call alone decides: its error if it fails before the network, the network otherwise —
+a later synchronous failure stays queued behind it. -/
+theorem builder_init_big (b : Builder ι) (hbig : 30 < b.futures.length) (c : Exch) (insts : List ι)
+    (rest : List (Exch × List ι)) (h : b.futures = (c, insts) :: rest) :
+    b.init ops = some (match subscribeOutcome ops c insts with
+      | .connect _ => .network
+      | o => .error (c, o)) := by
+  unfold Builder.init tryJoinAll
+  rw [if_neg (by simpa [Builder.firstPolls, tryJoinSmall] using hbig)]
+  simp only [Builder.firstPolls, h, List.map_cons, callPoll]
+  cases subscribeOutcome ops c insts <;> rfl
 
 omit [DecidableEq ι] in
 /-- `MultiStreamBuilder::add` owns a channel per exchange of every added builder, once. -/
@@ -606,30 +778,99 @@ theorem multi_channels_are_the_union (m : Multi ι) (b : Builder ι) (x : Exchan
       (m.channels.Nodup → (m.add b).channels.Nodup) ∧ (m.add b).futures = m.futures ++ [b] :=
   ⟨multi_add_channels m b x, multi_add_nodup m b, rfl⟩
 
-/-- `MultiStreamBuilder::init` before the network: builders without any `subscribe` call are skipped, the
-first builder with one decides. -/
+/-- `MultiStreamBuilder::init` before the network (CORRECTED after the sub-check review: "the first builder
+with a `subscribe` call decides" is false when that builder goes to the network and a later one fails
+synchronously, see `multi_init_first_pass_error`): builders without any `subscribe` call are skipped, and IF
+the first builder with one fails before the network, its error is the result. -/
 theorem multi_init_decided_by_first_nonempty_builder (pre : List (Builder ι)) (b : Builder ι)
-    (post : List (Builder ι)) (hpre : ∀ x ∈ pre, x.futures = []) (hb : b.futures ≠ []) :
+    (post : List (Builder ι)) (hpre : ∀ x ∈ pre, x.futures = []) (e : Exch × SubscribeOutcome ι)
+    (hb : b.init ops = some (.error e)) :
     (⟨[], pre ++ b :: post⟩ : Multi ι).init ops = b.init ops ∧
       (⟨[], pre⟩ : Multi ι).init ops = none := by
   have hskip : ∀ x ∈ pre, x.init ops = none := fun x hx =>
     (builder_init_decided_by_first_call ops x).1.mpr (hpre x hx)
-  have hb' : ∃ r, b.init ops = some r := by
-    cases h : b.init ops with
-    | none => exact absurd ((builder_init_decided_by_first_call ops b).1.mp h) hb
-    | some r => exact ⟨r, rfl⟩
-  obtain ⟨r, hr⟩ := hb'
-  unfold Multi.init
-  simp only
-  induction pre with
-  | nil => simp [Multi.init.go, hr]
-  | cons x t ih =>
-    have hx := hskip x (by simp)
-    have := ih (fun y hy => hpre y (by simp [hy])) (fun y hy => hskip y (by simp [hy]))
-    simp only [List.cons_append, Multi.init.go, hx]
-    exact this
+  have hnone : ∀ x ∈ pre.map (fun b => b.init ops), x = none := by
+    intro x hx
+    obtain ⟨y, hy, rfl⟩ := List.mem_map.mp hx
+    exact hskip y hy
+  constructor
+  · rw [hb]
+    unfold Multi.init tryJoinAll
+    simp only [List.map_append, List.map_cons, hb]
+    split
+    · exact (joinSmall_error_iff _ e).mpr ⟨_, _, rfl, fun x hx e' => by rw [hnone x hx]; simp⟩
+    · exact (joinBig_some_iff _ _).mpr ⟨_, _, rfl, hnone⟩
+  · unfold Multi.init tryJoinAll
+    split
+    · exact (joinSmall_none_iff _).mpr hnone
+    · exact (joinBig_none_iff _).mpr hnone
+
+/-- The first-pass clause one level up (at most 30 added builders): the result of `MultiStreamBuilder::init`
+before the network is the error of the first builder, in `add` order, whose own `init` fails when first
+polled — builders that are `Ok` at once or pending on the network are passed over. -/
+theorem multi_init_first_pass_error (m : Multi ι) (hsmall : m.futures.length ≤ 30) (e : Exch × SubscribeOutcome ι) :
+    m.init ops = some (.error e) ↔
+      ∃ pre b post, m.futures = pre ++ b :: post ∧ (∀ x ∈ pre, ∀ e', x.init ops ≠ some (.error e')) ∧
+        b.init ops = some (.error e) := by
+  unfold Multi.init tryJoinAll
+  rw [if_pos (by simpa [tryJoinSmall] using hsmall), joinSmall_error_iff]
+  constructor
+  · rintro ⟨pre, post, h, hpre⟩
+    obtain ⟨l1, l2', hl, hm1, hm2⟩ := List.map_eq_append_iff.mp h
+    obtain ⟨b, l2, rfl, hb, _⟩ := List.map_eq_cons_iff.mp hm2
+    exact ⟨l1, b, l2, hl, fun x hx => hpre _ (by rw [← hm1]; exact List.mem_map.mpr ⟨x, hx, rfl⟩), hb⟩
+  · rintro ⟨pre, b, post, h, hpre, hb⟩
+    refine ⟨pre.map (fun b => b.init ops), post.map (fun b => b.init ops), by simp [h, hb], ?_⟩
+    intro x hx
+    obtain ⟨y, hy, rfl⟩ := List.mem_map.mp hx
+    exact hpre y hy
+
+/-- `Ok` before the network iff no added builder has any `subscribe` call (any number of builders). -/
+theorem multi_init_ok_iff (m : Multi ι) : m.init ops = none ↔ ∀ b ∈ m.futures, b.futures = [] := by
+  have key : (∀ x ∈ m.futures.map (fun b => b.init ops), x = none) ↔ ∀ b ∈ m.futures, b.futures = [] := by
+    constructor
+    · intro h b hb
+      exact (builder_init_decided_by_first_call ops b).1.mp (h _ (List.mem_map.mpr ⟨b, hb, rfl⟩))
+    · intro h x hx
+      obtain ⟨b, hb, rfl⟩ := List.mem_map.mp hx
+      exact (builder_init_decided_by_first_call ops b).1.mpr (h b hb)
+  unfold Multi.init tryJoinAll
+  split
+  · rw [joinSmall_none_iff, key]
+  · rw [joinBig_none_iff, key]
 
 end
+
+/-- WITNESS (the input of the sub-check review; the real `init` was run on it: `sb 0; sub 0 1/2/s; sub 1 1/2/s;
+sbinit` returns `Err(Socket("BinanceFuturesUsd does not support: spot"))`): the first call (BinanceSpot) is
+pending on its connection attempt, the second (BinanceFuturesUsd with a Spot instrument) fails the static
+`validate` in the same pass and decides. -/
+theorem later_failure_witness :
+    (Builder.ofCalls .publicTrades
+        [(Exch.binanceSpot, [(⟨1, 2, .spot⟩ : Inst)]), (Exch.binanceFuturesUsd, [⟨1, 2, .spot⟩])]).init instOps =
+      some (.error (.binanceFuturesUsd, .unsupported ⟨1, 2, .spot⟩)) ∧
+    subscribeOutcome instOps .binanceSpot [(⟨1, 2, .spot⟩ : Inst)] = .connect [⟨1, 2, .spot⟩] := by
+  constructor <;> decide +kernel
+
+/-- WITNESS one level up (`mb; sb 0; sub 0 1/2/s; madd; sb 0; sub 1 1/2/s; madd; minit` on the real code:
+the same error): the first added builder is pending on the network, the second fails at once and decides. -/
+theorem multi_later_failure_witness :
+    (((({} : Multi Inst).add (Builder.ofCalls .publicTrades [(Exch.binanceSpot, [⟨1, 2, .spot⟩])])).add
+        (Builder.ofCalls .publicTrades [(Exch.binanceFuturesUsd, [⟨1, 2, .spot⟩])])).init instOps) =
+      some (.error (.binanceFuturesUsd, .unsupported ⟨1, 2, .spot⟩)) := by
+  decide +kernel
+
+/-- WITNESS of the 30 / 31 boundary (both run on the real code): the call list "BinanceSpot, BinanceFuturesUsd
+with a Spot instrument, then n more BinanceSpot calls" ends in the second call's error for n = 28 (30 calls)
+and in the network for n = 29 (31 calls). -/
+theorem try_join_all_boundary_witness :
+    let calls (n : Nat) : List (Exch × List Inst) :=
+      [(Exch.binanceSpot, [⟨1, 2, .spot⟩]), (Exch.binanceFuturesUsd, [⟨1, 2, .spot⟩])] ++
+        (List.range n).map fun i => (Exch.binanceSpot, [⟨i, 2, .spot⟩])
+    (Builder.ofCalls .publicTrades (calls 28)).init instOps =
+        some (.error (.binanceFuturesUsd, .unsupported ⟨1, 2, .spot⟩)) ∧
+      (Builder.ofCalls .publicTrades (calls 29)).init instOps = some .network := by
+  constructor <;> decide +kernel
 
 /-- COUNTER-THEOREM (the static and the dynamic validators disagree on a concrete subscription): a
 `Spot` instrument on the `GateioFuturesUsd` connector passes the static `validate` and is handed to the
